@@ -4,8 +4,10 @@ package main
 
 import (
 	"fmt"
+	"os"
 
 	"github.com/nspcc-dev/neo-go/pkg/core/block"
+	"github.com/nspcc-dev/neo-go/pkg/core/native/nativehashes"
 	"github.com/nspcc-dev/neo-go/pkg/core/transaction"
 	"github.com/nspcc-dev/neo-go/pkg/util"
 
@@ -19,14 +21,24 @@ type stateSpec struct {
 	ntx        int  // transactions in the valid next block
 	poolMode   int  // 0 empty, 1 some of the block's txs, 2 some + a conflicting one + an unrelated one
 	badNextPsr bool // sr && ahead>=2: header h+2 (validly signed) carries a wrong PrevStateRoot
+	// stale > 0: a transaction is pooled one block below the tip and the tip block changes what its
+	// validity depends on (see staleNames)
+	stale int
 }
+
+var staleNames = []string{"", "feeperbyte-raised-a-little", "feeperbyte-raised-a-lot", "attribute-fee-raised", "sender-blocked",
+	"balance-dropped", "valid-until-passed", "conflict-landed-on-chain"}
 
 func (s stateSpec) String() string {
 	b := 0
 	if s.badNextPsr {
 		b = 1
 	}
-	return fmt.Sprintf("%s prep=%d ahead=%d ntx=%d pool=%d badpsr=%d", s.k, s.nprep, s.ahead, s.ntx, s.poolMode, b)
+	r := fmt.Sprintf("%s prep=%d ahead=%d ntx=%d pool=%d badpsr=%d", s.k, s.nprep, s.ahead, s.ntx, s.poolMode, b)
+	if s.stale > 0 {
+		r += " stale=" + staleNames[s.stale]
+	}
+	return r
 }
 
 // txLabel is what the harness knows by construction about a transaction as received
@@ -47,18 +59,23 @@ type hdrInfo struct {
 }
 
 type state struct {
-	spec    stateSpec
-	v       *valset
-	h       uint32
-	prep    []*block.Block // blocks 1..h (as accepted by the producer)
-	next    *block.Block   // the valid block h+1
-	future  []*block.Block // valid blocks h+2.. (3 of them); future[0] may carry the bad psr
-	roots   []util.Uint256 // roots[i] = producer's state root at height i (0..h+4)
-	genesis hdrInfo
-	labels  map[string]txLabel
-	bal     map[string]int64 // balances at height h by account name
-	names   map[util.Uint160]string
-	pool    []*transaction.Transaction // txs pooled on a replica (in this order)
+	spec          stateSpec
+	v             *valset
+	h             uint32
+	prep          []*block.Block // blocks 1..h (as accepted by the producer)
+	next          *block.Block   // the valid block h+1
+	future        []*block.Block // valid blocks h+2.. (3 of them); future[0] may carry the bad psr
+	roots         []util.Uint256 // roots[i] = producer's state root at height i (0..h+4)
+	genesis       hdrInfo
+	labels        map[string]txLabel
+	bal           map[string]int64 // balances at height h by account name
+	names         map[util.Uint160]string
+	pool          []*transaction.Transaction // txs pooled on a replica (in this order)
+	prePool       []*transaction.Transaction // txs pooled one block below the tip (stale states)
+	stale         *transaction.Transaction   // the pooled transaction whose validity the tip block changed
+	staleOK       bool                       // VerifyTx(stale) on a clean replica at the tip height
+	staleWhy      string
+	fpb, conflFee int64 // FeePerByte / Conflicts attribute fee in force at the tip
 
 	// special transactions, all built for height h
 	onChain    *transaction.Transaction // included in block h
@@ -134,8 +151,12 @@ func (st *state) produce(p *chainT, txs []*transaction.Transaction) *block.Block
 	return mkBlock(f, txs)
 }
 
+// useState makes the transaction builders pay what this state's policy asks.
+func (st *state) useState() { curFeePerByte, curConflictsFee = st.fpb, st.conflFee }
+
 func buildState(spec stateSpec, r *prng.R) *state {
-	st := &state{spec: spec, v: spec.k.vals(), labels: map[string]txLabel{}, bal: map[string]int64{}, names: map[util.Uint160]string{}}
+	curFeePerByte, curConflictsFee = baseFeePerByte, 0
+	st := &state{spec: spec, fpb: baseFeePerByte, v: spec.k.vals(), labels: map[string]txLabel{}, bal: map[string]int64{}, names: map[util.Uint160]string{}}
 	pk := spec.k
 	pk.vt, pk.skip = true, false // the producer always verifies everything
 	p := newChain(pk)
@@ -146,13 +167,17 @@ func buildState(spec stateSpec, r *prng.R) *state {
 	}
 	st.genesis = hdrInfoOf(g)
 	st.roots = append(st.roots, p.bc.GetStateModule().CurrentLocalStateRoot())
-	st.h = uint32(1 + spec.nprep)
+	hPre := uint32(1 + spec.nprep) // height of the last ordinary prefix block
+	st.h = hPre
+	if spec.stale > 0 {
+		st.h++ // plus the block that changes the pooled transaction's validity
+	}
 	h := st.h
 	vub := h + 50
 	nonce := uint32(1000 * (r.Intn(1000) + 1))
 	nn := func() uint32 { nonce++; return nonce }
 	accts := []*acct{accA, accB, accC, accD}
-	for _, a := range append(accts, accP, accX) {
+	for _, a := range append(accts, accP, accX, accS) {
 		st.names[a.h] = a.name
 	}
 	st.names[st.v.addr] = "vals"
@@ -163,6 +188,10 @@ func buildState(spec stateSpec, r *prng.R) *state {
 		fund = append(fund, mkValTx(st.v, a.h, 1000*gas, nn(), vub))
 	}
 	fund = append(fund, mkValTx(st.v, accP.h, 30000000, nn(), vub))
+	fund = append(fund, mkValTx(st.v, accS.h, 10*gas, nn(), vub))
+	if cv := spec.k.committee(); cv.addr != st.v.addr {
+		fund = append(fund, mkValTx(st.v, cv.addr, 100*gas, nn(), vub)) // the committee pays for its policy changes
+	}
 	st.prep = append(st.prep, st.produce(p, fund))
 
 	// special txs whose hashes are needed early
@@ -171,19 +200,22 @@ func buildState(spec stateSpec, r *prng.R) *state {
 	namesY := mkTx(accA, accC.h, 6, txOpt{nonce: nn(), vub: vub, sysFee: sysFeeTransfer, conflicts: []util.Uint256{st.yConfl.Hash()}})
 
 	// blocks 2..h
-	for i := 2; i <= int(h); i++ {
+	for i := 2; i <= int(hPre); i++ {
 		var txs []*transaction.Transaction
 		n := r.Intn(3)
 		for j := 0; j < n; j++ {
 			a := accts[r.Intn(len(accts))]
 			txs = append(txs, mkTx(a, accts[r.Intn(len(accts))].h, int64(1+r.Intn(1000)), txOpt{nonce: nn(), vub: vub, sysFee: sysFeeTransfer}))
 		}
-		if i == int(h) {
+		if i == int(hPre) {
 			txs = append(txs, st.onChain, namesY)
 		}
 		st.prep = append(st.prep, st.produce(p, txs))
 	}
-	for _, a := range append(accts, accP, accX) {
+	if spec.stale > 0 {
+		st.buildStale(p, nn, vub)
+	}
+	for _, a := range append(accts, accP, accX, accS) {
 		st.bal[a.name] = gasBalance(p, a.h).Int64()
 	}
 	st.bal["vals"] = 0 // never a sender in candidate blocks
@@ -279,6 +311,55 @@ func buildState(spec stateSpec, r *prng.R) *state {
 	return st
 }
 
+// buildStale pools a transaction at the current producer height and adds the block that changes what
+// its validity depends on.
+func (st *state) buildStale(p *chainT, nn func() uint32, vub uint32) {
+	cv := st.spec.k.committee()
+	o := txOpt{nonce: nn(), vub: vub, sysFee: sysFeeTransfer}
+	var change []*transaction.Transaction
+	policy := nativehashes.PolicyContract
+	switch st.spec.stale {
+	case 1:
+		st.fpb = 2 * baseFeePerByte
+		change = append(change, mkCommitteeTx(cv, policy, "setFeePerByte", nn(), vub, st.fpb))
+	case 2:
+		st.fpb = 20 * baseFeePerByte
+		change = append(change, mkCommitteeTx(cv, policy, "setFeePerByte", nn(), vub, st.fpb))
+	case 3:
+		o.conflicts = []util.Uint256{{0x77, 1, 2, 3}}
+		st.conflFee = 50000000
+		change = append(change, mkCommitteeTx(cv, policy, "setAttributeFee", nn(), vub, int64(transaction.ConflictsT), st.conflFee))
+	case 4:
+		change = append(change, mkCommitteeTx(cv, policy, "blockAccount", nn(), vub, accS.h))
+	case 6:
+		o.vub = p.bc.BlockHeight() + 1
+	}
+	st.stale = mkTx(accS, accX.h, 55, o)
+	switch st.spec.stale {
+	case 5: // the sender moves (almost) everything away
+		d := mkTx(accS, accD.h, 0, txOpt{nonce: nn(), vub: vub, sysFee: sysFeeTransfer})
+		left := gasBalance(p, accS.h).Int64() - d.SystemFee - d.NetworkFee - 100000
+		change = append(change, mkTx(accS, accD.h, left, txOpt{nonce: d.Nonce, vub: vub, sysFee: sysFeeTransfer}))
+	case 7:
+		change = append(change, mkTx(accS, accD.h, 1, txOpt{nonce: nn(), vub: vub, sysFee: sysFeeTransfer, conflicts: []util.Uint256{st.stale.Hash()}}))
+	}
+	if err := p.bc.VerifyTx(cloneTx(st.stale)); err != nil {
+		panic(fmt.Sprintf("producer: the transaction to be pooled is not valid when pooled: %v", err))
+	}
+	st.prePool = []*transaction.Transaction{st.stale}
+	st.prep = append(st.prep, st.produce(p, change))
+	st.useState()                           // everything built from here on is for the tip height
+	err := p.bc.VerifyTx(cloneTx(st.stale)) // the producer's mempool is empty: this is a clean node at the tip height
+	st.staleOK, st.staleWhy = err == nil, "stale:"+staleNames[st.spec.stale]
+	if err != nil {
+		st.staleWhy += ":" + classifyTxErr(err)
+		if os.Getenv("VERIF_DEBUG") != "" {
+			fmt.Fprintf(os.Stderr, "stale tx at the tip: %v\n", err)
+		}
+	}
+	st.label(st.stale, st.staleOK, st.staleWhy)
+}
+
 // aheadHeaders returns fresh copies of the headers a replica learns ahead of its tip.
 func (st *state) aheadHeaders() []*block.Header {
 	var hs []*block.Header
@@ -293,7 +374,14 @@ func (st *state) aheadHeaders() []*block.Header {
 // replica builds a fresh node in this state.
 func (st *state) replica() *chainT {
 	c := newChain(st.spec.k)
-	for _, b := range st.prep {
+	for i, b := range st.prep {
+		if len(st.prePool) > 0 && i == len(st.prep)-1 {
+			for _, t := range st.prePool {
+				if err := c.bc.PoolTx(cloneTx(t)); err != nil {
+					panic(fmt.Sprintf("replica: PoolTx of the to-be-stale transaction refused: %v", err))
+				}
+			}
+		}
 		if err := c.bc.AddBlock(mkBlock(fieldsOf(&b.Header), b.Transactions)); err != nil {
 			panic(fmt.Sprintf("replica: prefix block %d refused: %v", b.Index, err))
 		}
